@@ -25,6 +25,8 @@ def native_jobs(plans, tier, variant, env, budget):
         j("seq", "C18", "default", "vrel", variant, shards=1, budget_s=budget, env=env) if variant == "plain" else None,
         j("seq", "C18", "th2", "vdev", variant, shards=1, budget_s=budget, env=env) if variant == "plain" else None,
         j("init", "C18", "default", "vdev", variant, shards=2, budget_s=budget, env=env),
+        j("sizes", "C18", "default", "vdev", variant, shards=2 if variant == "plain" else 1, budget_s=budget, env=env),
+        j("sizes", "C18", "th2", "vdev", variant, shards=1, budget_s=budget, env=env) if variant == "plain" else None,
         j("invalid", "C18", "default", "vdev", variant, shards=1, budget_s=budget, env=env),
         j("free", "C18", "default", "vdev", variant, shards=2, budget_s=budget, env=env),
         j("sched", "C18", "default", "vdev", variant, shards=2, budget_s=budget, env=env),
